@@ -215,6 +215,27 @@ def locateIn (b : BitVec 64) (p : ProgPtrs) : ProgPtrs :=
     argumentTypes := if p.typeStart ≠ 0 then p.argumentTypes + b else p.argumentTypes,
     typeStart := if p.typeStart ≠ 0 then p.typeStart + b else p.typeStart }
 
+/-- the C names of the members of `ProgPtrs`, in the order in which `locateOut` / `locateIn` (and the C functions) treat
+    them; true = relocated only `if (prog->type_start)`.  Compared with the assignments read from locate_out and
+    locate_in on every run (`relocation_members_tied`). -/
+def relocatedMembers : List (String × Bool) :=
+  [("program", false), ("function_table", false), ("function_flags", false), ("function_offsets", false),
+   ("function_compressed", false), ("strings", false), ("variable_table", false), ("variable_types", false),
+   ("inherit", false), ("classes", false), ("class_members", false), ("argument_types", true), ("type_start", true)]
+
+/-- pointer members of `program_t` that do not point into the program block: `load_binary` re-creates them
+    (`p->name = make_shared_string (name)`, `p->file_info = DXALLOC …`, `p->line_info = &p->file_info[…]`) -/
+def rebuiltMembers : List String := ["name", "line_info", "file_info"]
+
+/-- what the code generator stores with `ins_intptr`: the key of a switch table entry — the address of a program
+    string for a string switch (the ONE address-valued operand in the byte code, recorded in the patch list), the 0
+    label, or the number of a numeric case -/
+def modelIntptrOperands : List String :=
+  ["(intptr_t)PROG_STRING (pn->r.number)", "(intptr_t) 0", "(intptr_t) pn->r.expr"]
+
+/-- statements of qSort + quickSort that NV/C17/QSort.lean mirrors -/
+def modelQsortStatements : Nat := 13
+
 def ProgPtrs.fields (p : ProgPtrs) : List (BitVec 64) :=
   [p.program, p.functionTable, p.functionFlags, p.functionOffsets, p.functionCompressed, p.strings, p.variableTable,
    p.variableTypes, p.inherit, p.classes, p.classMembers, p.argumentTypes, p.typeStart]
